@@ -35,7 +35,7 @@ VARIABLES st, hist, everBig, allocCount
 cfg == [na |-> NA, nb |-> NB, isStd |-> IsStd, pocca |-> POCCA, pocma |-> POCMA, pocs |-> POCS, ae |-> AE,
         soccc |-> SOCCC, max |-> MaxSize, copyable |-> Copyable, nothrowMove |-> NothrowMove,
         nothrowMoveCtor |-> NothrowMove, nothrowMoveAssign |-> NothrowMove, hasMove |-> TRUE, construct |-> FALSE,
-        tracked |-> (Profile = "impl"), vector |-> FALSE]
+        tracked |-> (Profile \in {"impl", "impl2"}), vector |-> FALSE]
 
 Absent == [p |-> FALSE]
 
@@ -394,7 +394,13 @@ Enabled ==
   CASE Profile \in {"one", "max", "wide"} ->
          IF st.A.p THEN UnaryAll("A") ELSE CtorAll("A")
     [] Profile = "impl" ->
-         {o \in (IF st.A.p THEN UnaryAll("A") ELSE CtorAll("A")) : o.op \in Modelled}
+         {o \in (IF st.A.p THEN UnaryAll("A") ELSE CtorAll("A")) : o.op \in Modelled /\ RangeKindOK(o)}
+    [] Profile = "impl2" ->
+         \* the two-container routines through L2 (every throw point); movers through L2 as well
+         {o \in (UNION { IF st[c].p THEN UnaryMovers(c) ELSE CtorMovers(c) : c \in {"A", "B"} }
+                 \cup UNION { IF st[d].p /\ st[s].p THEN BinaryAll(d, s) ELSE {} : d \in {"A", "B"}, s \in {"A", "B"} }
+                 \cup UNION { IF ~st[d].p /\ st[Other(d)].p THEN CtorFromAll(d, Other(d)) ELSE {} : d \in {"A", "B"} })
+            : o.op \in Modelled}
     [] Profile = "two" ->
          UNION { IF st[c].p THEN UnaryMovers(c) ELSE CtorMovers(c) : c \in {"A", "B"} }
          \cup UNION { IF st[d].p /\ st[s].p THEN BinaryAll(d, s) ELSE {} : d \in {"A", "B"}, s \in {"A", "B"} }
@@ -441,10 +447,10 @@ Take(o, ln, extra) ==
 \* the request part of a line (what the caller passes), for L2
 Req(o, k) ==
   LET p == Predict(o) IN      \* the policy only supplies the fresh values the driver would use
-  [t |-> "op", op |-> o.op, c |-> o.c, s |-> o.s, a |-> o.a, v |-> p.v, k |-> <<k, 0>>, id |-> "mc", i |-> 0]
+  [t |-> "op", op |-> o.op, c |-> o.c, s |-> o.s, a |-> o.a, v |-> p.v, k |-> <<k, 0>>, id |-> "mc", i |-> 0, ret |-> p.ret]
 
 Next ==
-  IF Profile = "impl" THEN
+  IF Profile \in {"impl", "impl2"} THEN
     \* L2: every throw point of every modelled call.  The exceptional exits lead to states that are explored on.
     \E o \in Enabled :
       LET l0 == Exec(cfg, st, Req(o, 0)) IN
